@@ -2,7 +2,7 @@
 """Sensitivity protocol: apply a named mutation to a scratch copy of /repo/src (never to /repo), run a check's quick
 tier against it (PYTHONPATH first), report whether the check fails.  Scratch copies live under /tmp and are removed.
 
-usage: tools/mutants.py list | run <mutant> [<mutant> ...] | all [Cnn]
+usage: tools/mutants.py list | run <mutant> [<mutant> ...] | all [Cnn] [--jobs N] | report <results.jsonl> [...]
 """
 import json
 import os
@@ -61,14 +61,57 @@ def main() -> None:
         i = args.index("--examples")
         examples = args[i + 1]
         del args[i : i + 2]
+    jobs = 1
+    if "--jobs" in args:
+        i = args.index("--jobs")
+        jobs = int(args[i + 1])
+        del args[i : i + 2]
+    if args[0] == "report":
+        report(args[1:])
+        return
     if args[0] == "all":
         names = [n for n, s in MUTANTS.items() if len(args) < 2 or args[1] in s["checks"]]
     else:
         names = args[1:] if args[0] == "run" else args
+    if jobs > 1:
+        from concurrent.futures import ThreadPoolExecutor
+
+        with ThreadPoolExecutor(max_workers=jobs) as pool:
+            for res in pool.map(lambda n: run_mutant(n, examples), names):
+                print(json.dumps(res))
+                sys.stdout.flush()
+        return
     for name in names:
         res = run_mutant(name, examples)
         print(json.dumps(res))
         sys.stdout.flush()
+
+
+def report(paths) -> None:
+    """Markdown table (SENSITIVITY.md body) from one or more result files; later files override earlier ones."""
+    results = {}
+    for path in paths:
+        for line in open(path, encoding="utf-8"):
+            line = line.strip()
+            if line.startswith("{"):
+                res = json.loads(line)
+                results[res["mutant"]] = res
+    print("| mutant | property | change | detected by (quick tier) | first violated clause |")
+    print("|---|---|---|---|---|")
+    killed = 0
+    for name, spec in MUTANTS.items():
+        res = results.get(name)
+        if res is None or "error" in res:
+            print(f"| {name} | {spec['property']} | {spec['desc']} | not run | {(res or {}).get('error', '')} |")
+            continue
+        hits = [c for c, r in res["results"].items() if r["exit"] == 1]
+        miss = [c for c, r in res["results"].items() if r["exit"] != 1]
+        clause = next((r["clauses"][0].replace("violated clause: ", "") for r in res["results"].values() if r["clauses"]), "")
+        if spec["property"] in hits:
+            killed += 1
+        cell = ", ".join(hits) + (f" (not by {', '.join(miss)})" if miss else "")
+        print(f"| {name} | {spec['property']} | {spec['desc']} | {cell or 'MISSED'} | {clause} |")
+    print(f"\n{killed} of {len(MUTANTS)} mutants are detected by the quick tier of the check of the property they break.")
 
 
 if __name__ == "__main__":
